@@ -67,7 +67,9 @@ CLAIMED = {
              "return leaves exactly the current state active (C18_flat_nested_consistent, induction over the nesting); the three shipped machines, regenerated "
              "from the source, conform to the reference statechart semantics in every state for every request - verdict, destination, active set, events once "
              "each (C18_shipped_machines_conform, exhaustive over the finite tables). Where the property does NOT hold the development proves it: "
-             "C18_nested_hierarchical_refuted and C18_concurrent_refuted (known findings, replayed on the real engine). For ANY hierarchical machine (any forest with parents declared before "
+             "C18_nested_hierarchical_refuted and C18_nested_from_leave_refuted (known findings, replayed on the real engine). Concurrent requests: the engine performs one transition at a "
+             "time under a reentrant lock - read off _perform_transition by gen_statemachines, C18_transitions_are_locked is the obligation (atomicity of a `with lock:` body is trusted) - "
+             "so a concurrent execution is a sequence of whole transitions; without the lock two states end up active (C18_concurrent_refuted, D75). For ANY hierarchical machine (any forest with parents declared before "
              "children, any depth) whose callbacks request nothing, every allowed request reaches its destination and leaves exactly the destination and its ancestors "
              "active (C18_hierarchical_consistent, by induction along the ancestor chains); random forests are also compared with the reference by correspondence.",
         note=NOTE_COMMON + " Handler programs are modelled as lists of requested transition names; what else a callback does is outside the engine. Concurrency is modelled at the granularity check / leave / set / enter / called.",
